@@ -208,7 +208,7 @@ func main() {
 		Assumptions: []string{"blocks built through deps.NewCode from synthetic instructions"},
 		Cases: func(t string) int {
 			if t == "thorough" {
-				return 300000
+				return 2000000
 			}
 			return 40000
 		},
